@@ -121,6 +121,14 @@ def leapSecondsWith (tbl : List LeapEntry) (e : Ep) (iersOnly : Bool) : Option (
 def Ep.add (e : Ep) (d : Dur) : Ep := ⟨Dur.add e.dur d, e.ts⟩
 def Ep.subD (e : Ep) (d : Dur) : Ep := ⟨Dur.sub e.dur d, e.ts⟩
 
+/-- `seconds as i64` for an integer-valued double of value `k` (saturating cast) -/
+def satI64 (k : Int) : Int :=
+  if k > 9223372036854775807 then 9223372036854775807 else if k < -9223372036854775808 then -9223372036854775808 else k
+
+/-- `Epoch + f64` for an integer-valued double of value `k` (`seconds.trunc() == seconds` arm):
+    `self.duration + (seconds as i64) * Unit::Second` -/
+def Ep.addWholeSeconds (e : Ep) (k : Int) : Ep := ⟨Dur.add e.dur (Dur.unitMulI64 Gen.NANOSECONDS_PER_SECOND (satI64 k)), e.ts⟩
+
 /-- `Epoch - Epoch` -/
 def Ep.diff (a b : Ep) : Option Dur :=
   match b.to a.ts with
